@@ -69,6 +69,7 @@ func (s *Storer) Load(_ context.Context, key string) (authboss.User, error) {
 	}
 	defer s.S.guard()()
 	r, ok := s.db().Users[key]
+	s.S.note("Load %s %v %+v", key, ok, r)
 	if !ok {
 		return nil, authboss.ErrUserNotFound
 	}
@@ -85,7 +86,9 @@ func (s *Storer) Save(_ context.Context, user authboss.User) error {
 	if !ok {
 		return errors.New("storer: foreign user type")
 	}
-	if _, ok := s.db().Users[r.PID]; !ok {
+	_, ok = s.db().Users[r.PID]
+	s.S.note("Save %s %v", r.PID, ok)
+	if !ok {
 		return authboss.ErrUserNotFound
 	}
 	s.db().Users[r.PID] = r.Copy()
@@ -105,7 +108,9 @@ func (s *Storer) Create(_ context.Context, user authboss.User) error {
 	if !ok {
 		return errors.New("storer: foreign user type")
 	}
-	if _, ok := s.db().Users[r.PID]; ok {
+	_, exists := s.db().Users[r.PID]
+	s.S.note("Create %s %v", r.PID, exists)
+	if exists {
 		return authboss.ErrUserFound
 	}
 	row := r.Copy()
@@ -127,11 +132,11 @@ func (s *Storer) LoadByConfirmSelector(_ context.Context, selector string) (auth
 		return nil, err
 	}
 	defer s.S.guard()()
-	if selector != "" {
-		for _, pid := range s.db().PIDs() {
-			if r := s.db().Users[pid]; r.ConfirmSelector == selector {
-				return s.mk(r).(authboss.ConfirmableUser), nil
-			}
+	// plain equality, like `WHERE confirm_selector = ?`: an empty selector matches rows without one
+	for _, pid := range s.db().PIDs() {
+		if r := s.db().Users[pid]; r.ConfirmSelector == selector {
+			s.S.note("LoadByConfirmSelector %+v", r)
+			return s.mk(r).(authboss.ConfirmableUser), nil
 		}
 	}
 	return nil, authboss.ErrUserNotFound
@@ -143,11 +148,10 @@ func (s *Storer) LoadByRecoverSelector(_ context.Context, selector string) (auth
 		return nil, err
 	}
 	defer s.S.guard()()
-	if selector != "" {
-		for _, pid := range s.db().PIDs() {
-			if r := s.db().Users[pid]; r.RecoverSelector == selector {
-				return s.mk(r).(authboss.RecoverableUser), nil
-			}
+	for _, pid := range s.db().PIDs() {
+		if r := s.db().Users[pid]; r.RecoverSelector == selector {
+			s.S.note("LoadByRecoverSelector %+v", r)
+			return s.mk(r).(authboss.RecoverableUser), nil
 		}
 	}
 	return nil, authboss.ErrUserNotFound
@@ -185,6 +189,7 @@ func (s *Storer) UseRememberToken(_ context.Context, pid, token string) error {
 			if !s.S.Conc {
 				s.S.UsedTokens = append(s.S.UsedTokens, token)
 			}
+			s.S.note("UseRememberToken ok")
 			n := append(append([]string(nil), toks[:i]...), toks[i+1:]...)
 			if len(n) == 0 {
 				delete(s.db().Tokens, pid)
